@@ -57,6 +57,10 @@ CHECKS = {
  'C19': dict(level='exploration', ref='3/C19', technique='round-trip monitor on compiler executions: -E text re-lexed by an independent pp-tokenizer vs gcc -E == clang -E tokens, E(E(x)) == E(x), and asm(E(x)) == asm(x) modulo line records for the test corpus',
              text='All ordered pairs of 46 token classes are made adjacent through macro expansion in nine ways (with/without white space, through empty macros, comments, argument substitution) - an exhaustive grid - plus random longer sequences; what -E prints must re-lex to the intended token sequence and be a fixpoint. For every bundled test program and the compiler sources, compiling the -E output must produce the same assembly as compiling the source.',
              note='pairs rejected by or ambiguous between gcc and clang are discarded; the pp-tokenizer in lib/pptok.py is the trusted lexer'),
+
+ 'C10': dict(level='exploration', ref='3/C10', technique='differential monitor on preprocessor executions over generated conditional nestings and generated directory trees + option orders: chibicc -E (ASan/UBSan build) tokens vs gcc -E == clang -E; unique marker tokens per group/file',
+             text='Conditional nestings to depth 5 use #if expressions generated with a Python intmax_t/uintmax_t model (only defined operations; values around 2^31/2^63, defined, unknown identifiers), every #elif/#else shape, garbage and directives inside skipped groups and trailing tokens on directive lines. Include graphs are generated on disk: same-named headers in the includer directory, -I directories in random order and spelling, -idirafter, quote/angle/macro-expanded names, #include_next chains, seven header styles around include guards and #pragma once, -include and -D/-U orders. Markers make a token diff name the wrongly taken or skipped group/file.',
+             note='gcc == clang trusted; no fake system directory (chibicc has no -isystem); cases the references reject (unresolvable includes) are discarded'),
 }
 REASON_WIP = 'check not built yet in this session (planned, see DESIGN.md section 3); will be claimed once its monitor is silent on the unchanged tree'
 
